@@ -14,6 +14,7 @@ pub mod rev;
 pub mod drive;
 pub mod limits;
 pub mod twin;
+pub mod bitsrep;
 
 // ------------------------------------------------------------------ PRNG (splitmix64)
 #[derive(Clone)]
@@ -407,4 +408,32 @@ pub fn read_lines(path: &str) -> Vec<Value> {
             })
         })
         .collect()
+}
+
+
+/// Iterate over behaviours exported by TLC: accepts either NDJSON or raw TLC output with
+/// lines of the form `<<"REPLAY", "<escaped json>">>`.
+pub fn for_each_replay_line(path: &str, mut f: impl FnMut(Value)) {
+    use std::io::BufRead;
+    let file = std::fs::File::open(path).unwrap_or_else(|e| {
+        eprintln!("cannot read {}: {}", path, e);
+        std::process::exit(2)
+    });
+    for line in std::io::BufReader::with_capacity(1 << 20, file).lines() {
+        let line = match line { Ok(l) => l, Err(_) => continue };
+        let l = line.trim();
+        if l.starts_with('{') {
+            if let Ok(v) = serde_json::from_str::<Value>(l) {
+                f(v);
+            }
+        } else if let Some(rest) = l.strip_prefix("<<\"REPLAY\", ") {
+            if let Some(body) = rest.strip_suffix(">>") {
+                if let Ok(Value::String(inner)) = serde_json::from_str::<Value>(body) {
+                    if let Ok(v) = serde_json::from_str::<Value>(&inner) {
+                        f(v);
+                    }
+                }
+            }
+        }
+    }
 }
